@@ -157,6 +157,7 @@ func init() {
 		Runs: []RunDef{
 			{Fn: "H_iface_chain", Fuel: 30_000_000, Tier: "quick", Reach: []string{"end"}},
 			{Fn: "H_parent_chain", Fuel: 30_000_000, Tier: "quick", Reach: []string{"end"}},
+			{Fn: "H_self_inherited", Tier: "quick", Reach: []string{"end"}},
 			{Fn: "H_like", Params: map[string]int{"small": 1}, Fuel: 30_000_000, Tier: "quickonly", Reach: []string{"end"}},
 			{Fn: "H_like", Params: map[string]int{"small": 0}, Fuel: 30_000_000, Tier: "thorough", Reach: []string{"end"}},
 			{Fn: "H_hierarchy", Params: map[string]int{"implbits": 16}, Fuel: 30_000_000, Tier: "quickonly", Reach: []string{"end"}},
